@@ -37,7 +37,7 @@ impl Prop for C01 {
     }
 
     fn cases(tier: Tier) -> u64 {
-        tier.pick(6_000, 150_000)
+        tier.pick(40_000, 400_000)
     }
 
     fn strategy(tier: Tier) -> BoxedStrategy<Case> {
